@@ -16,6 +16,13 @@ def generate(rng, kind, n):
     for _ in range(n):
         ops = [OM.GEN[kind](rng) for _ in range(rng.randint(0, 10))]
         c = {"kind": kind, "compose": valid_compose(rng, R), "ops": ops}
+        if len(ops) >= 2 and rng.random() < 0.35:
+            # o.loads(o.dumps()) on the object itself between two adds (a no-op on the content, by C03), followed by an add to
+            # the cell addressed just before
+            k = rng.randrange(1, len(ops))
+            c["reload_before"] = k
+            if rng.random() < 0.7:
+                ops[k] = list(ops[k]); ops[k][0], ops[k][1] = ops[k - 1][0], ops[k - 1][1]
         if kind == "modules" and rng.random() < 0.5:
             # one list object handed to several add calls (shared by reference in the implementation run only)
             c["shared"] = [["a-0:1-1.x86_64", "b-0:1-1.noarch"], ["c-0:2-1.x86_64"]]
@@ -40,7 +47,12 @@ def impl_roundtrip(case):
     o = _new(kind)
     for k, v in case["compose"].items():
         setattr(o.compose, k, v)
-    for op in OM.resolve_ops(case, True):
+    for i, op in enumerate(OM.resolve_ops(case, True)):
+        if case.get("reload_before") == i:
+            try:
+                o.loads(o.dumps())
+            except EXC as e:
+                return ["reload-failed", exc_result(e)]
         try:
             o.add(*op)
         except EXC:
